@@ -703,6 +703,22 @@ def run_C02(ctx):
                     fail(out, f"C02:{topo_key(net)}:cs", net, pv, sv, f"CasADi {sym} function: " + msg,
                          reads_seed=run.reads_seed)
                 out["coverage"]["evaluations"] += 1
+                # the balance read off the single next-state vector of the fully aggregated function (x+ is laid out as
+                # x: whoever iterates x <- F(x, u, d) counts vehicles through that layout)
+                if mode == pts[0][0]:
+                    try:
+                        F2_, _ = run.function(sym, 2, False)
+                        vals2, probs2 = run.call(F2_, 2, False, sv)
+                    except Exception as ex:
+                        vals2, probs2 = None, [repr(ex)[:200]]
+                    if vals2 is None:
+                        disagree(out, net, pv, sv, "CasADi compact=2: " + "; ".join(probs2))
+                    else:
+                        out["coverage"]["evaluations"] += 1
+                        for msg in balance_failures(net, pv, sv, vals2):
+                            fail(out, f"C02:{topo_key(net)}:cs2", net, pv, sv,
+                                 f"CasADi {sym} function at compact=2 (next states read off x+ through the layout of x): " + msg,
+                                 sym=sym, compact=2)
     return finish(out, distinct, data, RULE + "; oracle: vehicle balance computed from inputs and outputs only")
 
 
@@ -747,13 +763,15 @@ def run_C03(ctx):
                              reads_seed=run.reads_seed, sym=sym, compact=compact, more_out=more)
         # integer-valued states given to the NumPy engine as integer arrays; a state with negative entries
         # (entries where the plain law is not a number are skipped)
-        for label, svx, shape_ in (("integer arrays", integer_state(pts[0][1]), "int"),
-                                   ("negative entries", nets.random_state(net, pv, rng, "negative"), "vec1")):
-            if dyn.near_excluded(net, pv, svx):
+        pi_all = {"pi_rho": True, "pi_v": True, "pi_w": True}
+        for label, svx, shape_, ox in (("integer arrays", integer_state(pts[0][1]), "int", None),
+                                       ("negative entries", nets.random_state(net, pv, rng, "negative"), "vec1", None),
+                                       ("negative entries, positive_init options", nets.random_state(net, pv, rng, "negative"), "vec1", pi_all)):
+            if dyn.near_excluded(net, pv, svx) or (ox and dyn.near_excluded(net, pv, {k_: max(v_, 0.0) if k_[:2] in ("rh", "v.", "w.") else v_ for k_, v_ in svx.items()})):
                 continue
             try:
-                refx = run.numpy_step(svx, None, shape_)
-                F, _ = run.function("SX", 0, False)
+                refx = run.numpy_step(svx, ox, shape_)
+                F, _ = run.function("SX", 0, False, ox)
                 valsx, _p = run.call(F, 0, False, svx)
             except Exception as ex:
                 fail(out, f"C03:{topo_key(net)}:{shape_}-raise", net, pv, svx, f"{label}: raised {ex!r:.300}", scalar_shape=shape_)
@@ -1154,6 +1172,21 @@ def run_C11(ctx):
                     return vals
                 try:
                     plain_cache = {}
+                    # no option passed at all: the library's defaults are "all off" - the plain METANET step, also
+                    # where that gives negative speeds, densities or queues
+                    if stree is not None:
+                        got_d = step(sv, None)
+                        out["coverage"]["evaluations"] += 1
+                        spec_d = dyn.eval_all(stree, dyn.env_of(pv, sv))
+                        for k in keys:
+                            v_, mag_, _b = spec_d[k]
+                            if math.isnan(v_) or math.isnan(got_d[k]) or math.isinf(v_):
+                                continue
+                            if not tree.close(v_, got_d[k], mag_):
+                                fail(out, f"C11:{topo_key(net)}:defaults", net, pv, sv,
+                                     f"{backend}: no option passed (library defaults): {k} = {got_d[k]!r}, the unclamped METANET value "
+                                     f"is {v_!r}", opts=None, backend=backend)
+                                break
                     for o in chosen:
                         got = step(sv, o)
                         out["coverage"]["evaluations"] += 1
@@ -1482,6 +1515,29 @@ def run_C10(ctx):
                     break
         except Exception as ex:
             fail(out, f"C10:{topo_key(net)}:np:names-raise", net, pv, sv, f"NumPy step with colliding names raised {ex!r:.200}")
+        # the turn rate of a link matters to the links leaving the same node (their first-segment densities) and to
+        # nothing else in the network
+        try:
+            _n10, edges10 = net.graph()
+            for lt in (sorted(net.links) if not quick else rng.sample(sorted(net.links), min(3, len(net.links)))):
+                up_ = [u for (u, d, l) in edges10 if l == lt][0]
+                sibl = {l for (u, d, l) in edges10 if u == up_}
+                pvt = dict(pv)
+                pvt[f"lp.{lt}.turnrate"] = pv[f"lp.{lt}.turnrate"] * 1.7 + 0.05
+                if dyn.near_excluded(net, pvt, sv):
+                    continue
+                gott = Runner(net, pvt).numpy_step(sv)
+                out["coverage"]["evaluations"] += 1
+                for k in state_keys(net):
+                    if k.split()[0] == "rho+" and int(k.split()[1]) in sibl and int(k.split()[2]) == 0:
+                        continue
+                    if not (gott[k] == ref[k] or (math.isnan(gott[k]) and math.isnan(ref[k]))):
+                        fail(out, f"C10:{topo_key(net)}:np:turnrate", net, pv, sv,
+                             f"NumPy: changing the turn rate of link {lt} (leaving node {up_}) changes {k} ({ref[k]!r} -> {gott[k]!r}), "
+                             f"which is not the first-segment density of a link leaving that node", observable=k, input=f"lp.{lt}.turnrate")
+                        break
+        except Exception as ex:
+            fail(out, f"C10:{topo_key(net)}:np:turnrate-raise", net, pv, sv, f"stepping with another turn rate raised {ex!r:.200}")
         toks = [t for t in sv if not t.startswith("vc.") or True]
         # every chosen input is scaled; besides, the density and the speed of the last segment of every link are set to
         # exactly zero one at a time (an empty or standing segment: the flow it sends on is 0, and nothing that is
@@ -2012,6 +2068,33 @@ def run_C18(ctx):
                                 kk, x, y = bad[0]
                                 fail(out, f"C18:ramp-neutral:{kind}", net, pv, s2, f"{b_}: origin {o} as {kind} with neutral control gives {kk} = {x!r}; metered 'out' ramp at rate 1 gives {y!r}", origin=o, kind=kind)
                 distinct.add((topo_key(net), "ramp", o))
+            # the same equalities through the element-level API with its own defaults (no init option passed), from a
+            # NEGATIVE queue: no kind of ramp clamps it unless asked to
+            if k in ("ramp_in", "ramp_out", "simp_lim"):
+                sve = dict(sv0)
+                sve[f"w.{o}"] = -rng.uniform(0.1, 2.0)
+                refe = None
+                for kind, u in (("ramp_out", 1.0), ("ramp_in", 1.0), ("simp_lim", rng.choice(INF))):
+                    var = variant_net(net, lambda n: n.origins.__setitem__(o, kind))
+                    s2 = dict(sve)
+                    s2[f"u.{o}"] = u
+                    try:
+                        re_ = impl.Real(var, pv).numpy_step_elementwise(s2)
+                    except Exception as ex:
+                        re_ = ex
+                    out["coverage"]["evaluations"] += 1
+                    if refe is None:
+                        refe = re_
+                        continue
+                    if isinstance(refe, dict) and isinstance(re_, dict):
+                        bad = states_close(re_, refe, [k_ for k_ in keys if not math.isnan(refe[k_])])
+                        if bad:
+                            kk, x, y = bad[0]
+                            fail(out, f"C18:ramp-neutral-elementwise:{kind}", net, pv, s2,
+                                 f"np, elements initialised and stepped one by one with their own defaults, queue {s2[f'w.{o}']!r}: origin {o} as "
+                                 f"{kind} with neutral control gives {kk} = {x!r}; metered 'out' ramp at rate 1 gives {y!r}", origin=o, kind=kind)
+                    elif isinstance(re_, Exception) and not isinstance(refe, Exception):
+                        fail(out, f"C18:ramp-neutral-elementwise-raise:{kind}", net, pv, s2, f"element-level API, origin {o} as {kind}: {re_!r:.200}")
             if k == "main":
                 sv = dict(sv0)
                 nodes, edges = net.graph()
@@ -2403,7 +2486,10 @@ def run_C12(ctx):
             for rep, (fill1, fill2) in enumerate(((60.0, 90.0), ("rand", 12.5))):
                 Rp = impl.Real(net, pv)
                 full = Rp.init_conditions(sv, "vec1")
-                ic = {}
+                # (the container is whatever mapping the caller collects the conditions in: a plain dict, or a
+                # dict subclass that creates entries when it is subscripted - looking an element up must not add one)
+                import collections
+                ic = {} if rep == 0 else collections.defaultdict(dict)
                 for j, (el, d) in enumerate(full.items()):
                     if (j + ci + rep) % 4 == 3:
                         continue                      # element left out entirely
